@@ -198,10 +198,7 @@ class SpawnProcess(multiprocessing.context.SpawnProcess):
 
         except EOFError as exc:
             # the process has been terminated by calling ``self.terminate()``
-            while self.exitcode is None:
-                time.sleep(0.001)
-
-            exitcode = -self.exitcode
+            exitcode = -self._peek_exitcode()
             if exitcode == errno.ENOTBLK:  # 15
                 # warnings.warn(
                 #     f'process exitcode {exitcode}, {errno.errorcode[exitcode]}; likely due to a forced termination by calling `.terminate()`',
@@ -229,6 +226,22 @@ class SpawnProcess(multiprocessing.context.SpawnProcess):
             self._future_.set_exception(error)
         else:
             self._future_.set_result(result)
+
+    def _peek_exitcode(self):
+        # Exit code of the dying child, obtained without reaping it.
+        # ``self.exitcode`` calls ``os.waitpid``; doing that in this helper thread races with
+        # a ``join`` in another thread: whichever loses gets ECHILD, which the standard library
+        # reports as "still running", so ``join()`` would return with ``done()`` being False.
+        try:
+            info = os.waitid(os.P_PID, self.pid, os.WEXITED | os.WNOWAIT)
+        except (ChildProcessError, AttributeError):
+            # already reaped by a ``join`` elsewhere (or no ``waitid`` on this platform)
+            while self.exitcode is None:
+                time.sleep(0.001)
+            return self.exitcode
+        if info.si_code == os.CLD_EXITED:
+            return info.si_status
+        return -info.si_status
 
     @staticmethod
     def _finalize(logger_thread, q):
